@@ -534,19 +534,25 @@ func VerifC15_KRfcSep() {
 	vCover("rejected")
 }
 
-// format then parse gives an equal instant (second / nanosecond precision).
+// format then parse gives an equal instant (second / nanosecond precision).  Date, time of day,
+// nanoseconds and offset are drawn by the solver from boundary sets (the digit generation inside
+// Time.Format is /10 %10 arithmetic on 64-bit words that no solver here finishes symbolically):
+// a thin solver role, stated.
 func VerifC15_KRoundTrip() {
 	env := verifEnv()
 	dates := [][3]int{{0, 1, 1}, {9999, 12, 31}, {2024, 2, 29}, {1900, 2, 28}, {2000, 2, 29}, {1970, 1, 1}, {1969, 12, 31}, {2023, 12, 31}}
-	di := vndChoice("date", len(dates))
-	tod := vndInt64("tod")
-	vAssume(tod >= 0)
-	vAssume(tod < 86400)
-	nsec := vndInt64("nsec")
-	vAssume(nsec >= 0)
-	vAssume(nsec < 1000000000)
-	base := time.Date(dates[di][0], time.Month(dates[di][1]), dates[di][2], 0, 0, 0, 0, time.UTC)
-	t := time.Unix(base.Unix()+tod, nsec).UTC()
+	tods := [][3]int{{0, 0, 0}, {23, 59, 59}, {12, 30, 45}, {0, 0, 1}, {9, 5, 7}}
+	nss := []int{0, 1, 999999999, 123456789, 100000000, 5000}
+	offs := []int{0, 3600, -3600, 19800, -43200, 50400, 86340, -86340, 1}
+	d := dates[vConcInt(vndChoice("date", len(dates)))]
+	td := tods[vConcInt(vndChoice("tod", len(tods)))]
+	ns := nss[vConcInt(vndChoice("ns", len(nss)))]
+	off := offs[vConcInt(vndChoice("off", len(offs)))]
+	loc := time.UTC
+	if off != 0 {
+		loc = time.FixedZone("", off)
+	}
+	t := time.Date(d[0], time.Month(d[1]), d[2], td[0], td[1], td[2], ns, loc)
 	nano := vndBool("nano")
 	var sv *lisp.LVal
 	if nano {
@@ -555,11 +561,24 @@ func VerifC15_KRoundTrip() {
 		sv = BuiltinFormatRFC3339(env, verifArgs(Time(t)))
 	}
 	vAssert(sv.Type == lisp.LString, "format returns a string")
+	vObserve("text", sv.Str)
 	t2, ok := verifParse(nano, sv.Str)
-	vAssert(ok, "formatted instant parses")
+	if off%60 != 0 {
+		// RFC 3339 offsets have minute precision: a zone with a seconds component cannot be written
+		vCover("subminute-offset")
+		return
+	}
+	y := t.Year()
+	if y < 0 || y > 9999 {
+		vCover("year-out-of-range")
+		return
+	}
+	vAssert(ok, "a formatted instant parses: "+sv.Str)
 	vAssert(t2.Unix() == t.Unix(), "round trip preserves the second")
 	if nano {
-		vAssert(t2.Equal(t), "nano round trip preserves the instant")
+		vAssert(t2.Equal(t), "the -nano round trip preserves the instant")
+	} else {
+		vAssert(t2.Nanosecond() == 0, "the second-precision form drops the fraction")
 	}
 	vCover("end")
 }
